@@ -245,20 +245,55 @@ def _r1(run, f, r, cfg, it_file, lnode, inode):
     def is_sentinel_value(v):
         # the sentinel itself, or the element found at its position
         return v == sentinel or v == ("sub", L, idx_call)
+    # "position of the sentinel, or None": a project helper `def find(items, wanted): try: return items.index(wanted) / except ValueError: return None`
+    pos_or_none = None
+    for e in r.events:
+        if e.kind == "call" and e.term[1][0] == "sym" and len(e.term[2]) == 2 and e.term[2][0] == L and e.term[2][1] == sentinel and not e.term[3]:
+            h = common.resolve_callee(project_of(run), f, e.node) if isinstance(e.node, ast.Call) else None
+            if h is None:
+                for c_ in own_calls(f.node):
+                    if isinstance(c_.func, ast.Name) and c_.func.id == e.term[1][1]:
+                        h = common.resolve_callee(project_of(run), f, c_)
+            if h is not None and _is_index_or_none(project_of(run), h):
+                pos_or_none = e.term
+    if pos_or_none is not None:
+        idx_forms = (idx_call, pos_or_none)
+    else:
+        idx_forms = (idx_call,)
+
+    def is_sentinel_value(v):          # noqa: F811 -- the element found at the sentinel's position, however that position was obtained
+        return v == sentinel or any(v == ("sub", L, i_) for i_ in idx_forms)
     st_last = [e for e in stores if is_last(slot(e))]
-    st_idx = [e for e in stores if slot(e) == idx_call]
+    st_idx = [e for e in stores if slot(e) in idx_forms]
     if st_last or st_idx:
         ok = len(st_last) == 1 and len(st_idx) == 1 and is_sentinel_value(st_last[0].term[1][1]) \
             and st_idx[0].term[1][1][0] == "sub" and st_idx[0].term[1][1][1] == L and is_last(st_idx[0].term[1][1][2])
+        definite = None
         if ok:
-            # both stores on the path where the sentinel is present (else-branch of the try / `if sentinel in L`)
+            # both stores on the path where the sentinel is present (else-branch of the try / `if sentinel in L` / `pos is not None`)
             pcs = [c for c in st_last[0].pc if c[0] != "loop"]
             in_handler = any(c[0][0] == "op" and c[0][1] == "except" and c[1] for c in pcs)
             other = [c for c in pcs if not (c[0][0] == "op" and c[0][1] == "except")]
-            guard_ok = all(c == (("op", "cmp:In", (sentinel, L)), True) for c in other)
+            present = [(("op", "cmp:In", (sentinel, L)), True)]
+            if pos_or_none is not None:
+                present += [(sym.cmp("Is", pos_or_none, sym.NONE), False), (sym.cmp("Eq", pos_or_none, sym.NONE), False)]
+            guard_ok = all(c in present for c in other)
+            if pos_or_none is not None and any(c == (pos_or_none, True) for c in other):
+                definite = ("the swap is guarded by the truth value of the position found (`if %s:`): position 0 is falsy, so when the operating system lists "
+                            "'index.wtml' first it stays first and is uploaded before every other file" % show(pos_or_none).split("(")[0])
+            if pos_or_none is not None and slot(st_idx[0]) == pos_or_none and not other:
+                definite = "the swap uses the position found without testing it for None: a listing without 'index.wtml' fails"
             ok = not in_handler and guard_ok
         if ok:
             idiom = "swap"
+        elif definite:
+            run.violated("C18.R1", f, (st_last + st_idx)[0].node, definite, kind="swap-guard")
+            return
+        elif len(st_last) == 1 and not st_idx and [e for e in stores if e is not st_last[0]]:
+            # a swap through a position the rule cannot name (computed by a helper / loop it does not follow)
+            run.undecided("C18.R1", f, st_last[0].node, "the listing is rearranged through position %s, which is not followed: cannot tell whether 'index.wtml' ends up last" %
+                          show(slot([e for e in stores if e is not st_last[0]][0]))[:60], kind="swap-unknown-position")
+            return
         else:
             got = [(show(slot(e))[:30], show(e.term[1][1])[:40]) for e in st_last + st_idx]
             run.violated("C18.R1", f, (st_last + st_idx)[0].node, "the listing is rearranged as %s: that does not put 'index.wtml' into the last slot while keeping every "
@@ -314,6 +349,35 @@ def _r1(run, f, r, cfg, it_file, lnode, inode):
         return
     run.holds("C18.R1", f, lnode, "move-to-end idiom `%s`: 'index.wtml' is the last element of the uploaded list whenever it is present; other files keep being uploaded" % idiom,
               idiom=idiom)
+
+
+def project_of(run):
+    return run.project
+
+
+def _is_index_or_none(project, h):
+    """Is *h* `def find(items, wanted)` returning items.index(wanted), and None exactly when that raises ValueError?"""
+    ps = h.params()
+    if len(ps) != 2 or h.cls is not None:
+        return False
+    rets = [n for n in own_nodes(h.node) if isinstance(n, ast.Return)]
+    tries = [n for n in own_nodes(h.node) if isinstance(n, ast.Try)]
+    if len(tries) != 1 or len(rets) != 2 or tries[0].finalbody or tries[0].orelse or len(tries[0].handlers) != 1:
+        return False
+    t = tries[0]
+    body_ret = [s for s in t.body if isinstance(s, ast.Return)]
+    if len(t.body) != 1 or len(body_ret) != 1:
+        return False
+    v = body_ret[0].value
+    good_val = isinstance(v, ast.Call) and isinstance(v.func, ast.Attribute) and v.func.attr == "index" and isinstance(v.func.value, ast.Name) and v.func.value.id == ps[0] \
+        and len(v.args) == 1 and isinstance(v.args[0], ast.Name) and v.args[0].id == ps[1] and not v.keywords
+    hd = t.handlers[0]
+    catches = common.handler_catches_class(hd, "ValueError")
+    hret = [s for s in hd.body if isinstance(s, ast.Return)]
+    none_ret = len(hd.body) == 1 and len(hret) == 1 and (hret[0].value is None or (isinstance(hret[0].value, ast.Constant) and hret[0].value.value is None))
+    # nothing but the try (and a docstring) in the helper
+    rest = [s for s in h.node.body if s is not t and not (isinstance(s, ast.Expr) and isinstance(s.value, ast.Constant))]
+    return good_val and catches and none_ret and not rest
 
 
 def _r3(run, f, cfg, put):
